@@ -96,6 +96,8 @@ package dnsserver
 
 //@ extern github.com/coredns/coredns/plugin/pkg/edns Version
 //@ ensures err != nil ==> result0 != nil && fresh(result0) && result0.Rcode == dns.RcodeBadVers && result0.Id == req.Id && result0.Response
+// (coredns builds the BADVERS reply with SetReply and then deliberately empties its question section)
+//@ ensures err != nil ==> len(result0.Question) == 0
 
 //@ extern github.com/coredns/coredns/request Request.Do
 //@ pure
@@ -167,6 +169,7 @@ package dnsserver
 //@ ghost ol0 int, ol1 int, ot int, oc int, on str
 //@ before Cache.Get#0 assert[key-injective] cacheKey == sprintf("%.3d%.5d%.5d%s", ol0, ol1, ot, oc, on) ==> ol0 == loc.LocID[0] && ol1 == loc.LocID[1] && ot == uf.qtypeof(state.Req) && oc == uf.qclassof(state.Req) && on == uf.qnameof(state.Req)
 //@ before FBDNSDB.writeAndLog#0 assert[badvers] a != nil && a.Rcode == dns.RcodeBadVers && a.Id == r.Id && a.Response
+//@ before FBDNSDB.writeAndLog#0 check[badvers-question] len(r.Question) >= 1 ==> len(a.Question) == 1 && a.Question[0] == r.Question[0]
 //@ before FBDNSDB.writeAndLog#1 assert[hit-shape] resp != nil && resp.Id == r.Id && resp.Response
 //@ before FBDNSDB.writeAndLog#1 assert[hit-question] len(r.Question) >= 1 ==> len(resp.Question) == 1 && resp.Question[0] == r.Question[0] && resp.Opcode == r.Opcode
 //@ before FBDNSDB.writeAndLog#3 assert[question] len(r.Question) >= 1 ==> len(a.Question) == 1 && a.Question[0] == r.Question[0] && a.Opcode == r.Opcode
